@@ -4,6 +4,7 @@ mod c14;
 mod c15;
 mod c16;
 mod net;
+mod serial;
 mod tls;
 
 use vcommon::report::{parse_args, EXIT_INCONCLUSIVE};
@@ -22,6 +23,23 @@ fn main() {
         "c15" => c15::run(&args),
         "c16" => c16::run(&args),
         "c09" => tls::c09(&args),
+        "c06pty" => {
+            // RTU over a real tty; evidence is merged by the sim engine's C06 check
+            let rt = tokio::runtime::Builder::new_multi_thread().worker_threads(4).enable_all().build().unwrap();
+            let mut ev = vcommon::report::Evidence::new();
+            let frames = args.tier.pick(60usize, 600);
+            let problems = rt.block_on(serial::rtu_server_pty(frames, args.seed, &mut ev));
+            serial::merge(&mut ev, problems, "c06pty");
+            if let Some(out) = args.extra.get("out") {
+                let _ = std::fs::write(out, serde_json::to_string(&ev.to_json()).unwrap());
+            } else {
+                for v in &ev.violations {
+                    println!("violation: sig={} :: {}", v.sig, v.what);
+                }
+                println!("c06pty: {:?}", ev.counters);
+            }
+            0
+        }
         other => {
             eprintln!("unknown check {other}");
             EXIT_INCONCLUSIVE
